@@ -117,6 +117,69 @@ MUTANTS = [
     ('loop-ignores-context-table', 'asceprovider.py',
      '                _, sop_class, ts = self.sop_classes_as_scp[pc_id]',
      '                _, sop_class, ts = self.sop_classes_as_scp.get(pc_id) or next(iter(self.sop_classes_as_scp.values()))', ['C09']),
+    ('ctx-ids-step1', 'applicationentity.py', 'count(start, 2))}', 'count(start, 1))}', ['C11']),
+    ('ctx-ids-start2', 'applicationentity.py',
+     "        start = max(self.context_def_list.keys()) + 2 if self.context_def_list \\\n            else 1",
+     "        start = max(self.context_def_list.keys()) + 2 if self.context_def_list \\\n            else 2", ['C11']),
+    ('requester-accepts-result-1', 'asceprovider.py', 'if ctx.result_reason == 0)',
+     'if ctx.result_reason in (0, 1))', ['C11']),
+    ('requester-ts-of-proposal', 'asceprovider.py',
+     '            ts_uid = uid.UID(ctx.ts_sub_item.name)\n            self.sop_classes_as_scu[sop_class] = (pc_id, ts_uid)',
+     '            ts_uid = uid.UID(sorted(self.context_def_list[ctx.context_id].supported_ts)[0])\n            self.sop_classes_as_scu[sop_class] = (pc_id, ts_uid)', ['C11']),
+    ('requester-titles-swapped', 'asceprovider.py',
+     "            called_ae_title=remote_ae['aet'],\n            calling_ae_title=local_ae['aet'],",
+     "            called_ae_title=local_ae['aet'],\n            calling_ae_title=remote_ae['aet'],", ['C11']),
+    ('get-scu-generic-error', 'asceprovider.py',
+     "            pc_id, ts = self.sop_classes_as_scu[sop_class]\n            service = self.ae.supported_scu[sop_class]\n        except KeyError:",
+     "            pc_id, ts = self.sop_classes_as_scu[sop_class]\n            service = self.ae.supported_scu[sop_class]\n        except IndexError:", ['C11']),
+    ('dedup-removed', 'applicationentity.py', '            if sop_class not in known:',
+     '            if True:', ['C11']),
+    ('too-many-check-off-by-one', 'asceprovider.py', 'if any(not 0 < pc_id < 256 for pc_id',
+     'if any(not 0 < pc_id < 258 for pc_id', ['C11']),
+    ('abort-fields-swapped', 'asceprovider.py',
+     'raise exceptions.AssociationAbortedError(dul_msg.source, dul_msg.reason_diag)',
+     'raise exceptions.AssociationAbortedError(dul_msg.reason_diag, dul_msg.source)', ['C14']),
+    ('rj-fields-rotated', 'asceprovider.py',
+     '            self.reject(exc.result, exc.source, exc.diagnostic)',
+     '            self.reject(exc.result, exc.diagnostic, exc.source)', ['C14']),
+    ('rj-error-fields-rotated', 'asceprovider.py',
+     '                dul_msg.result, dul_msg.source, dul_msg.reason_diag)',
+     '                dul_msg.source, dul_msg.result, dul_msg.reason_diag)', ['C14']),
+    ('exit-release-abort-swapped', 'applicationentity.py',
+     '            if assoc and assoc.association_established:\n                assoc.abort()',
+     '            if assoc and assoc.association_established:\n                assoc.release()', ['C14']),
+    ('normal-exit-aborts', 'applicationentity.py',
+     '            if assoc.association_established:\n                assoc.release()',
+     '            if assoc.association_established:\n                assoc.abort()', ['C14']),
+    ('acceptor-abort-source', 'asceprovider.py',
+     '        self.dul.send(pdu.AAbortPDU(source=2, reason_diag=reason))',
+     '        self.dul.send(pdu.AAbortPDU(source=0, reason_diag=reason))', ['C14']),
+    ('released-no-rp', 'asceprovider.py',
+     '        except exceptions.AssociationReleasedError:\n            self.dul.send(pdu.AReleaseRpPDU())',
+     '        except exceptions.AssociationReleasedError:\n            pass', ['C14']),
+    ('select-always-waits', 'dulprovider.py',
+     'timeout = 0 if self.dimse_gen or not self.from_service_user.empty() else 0.05',
+     'timeout = 0.05', ['C14']),
+    ('store-rsp-drops-msgid', 'sopclass.py',
+     "    rsp = dimsemessages.CStoreRSPMessage()\n    rsp.message_id_being_responded_to = msg.message_id\n    rsp.affected_sop_instance_uid = msg.affected_sop_instance_uid\n    rsp.sop_class_uid = msg.sop_class_uid\n    rsp.status = int(status)",
+     "    rsp = dimsemessages.CStoreRSPMessage()\n    rsp.message_id_being_responded_to = 1\n    rsp.affected_sop_instance_uid = msg.affected_sop_instance_uid\n    rsp.sop_class_uid = msg.sop_class_uid\n    rsp.status = int(status)", ['C17']),
+    ('find-final-drops-msgid', 'sopclass.py',
+     "    rsp = dimsemessages.CFindRSPMessage()\n    rsp.message_id_being_responded_to = msg.message_id\n    rsp.sop_class_uid = msg.sop_class_uid\n    rsp.status = int(statuses.SUCCESS)",
+     "    rsp = dimsemessages.CFindRSPMessage()\n    rsp.sop_class_uid = msg.sop_class_uid\n    rsp.status = int(statuses.SUCCESS)", ['C17']),
+    ('move-final-wrong-class', 'sopclass.py',
+     "    rsp = dimsemessages.CMoveRSPMessage()\n    rsp.message_id_being_responded_to = msg.message_id\n    rsp.sop_class_uid = msg.sop_class_uid\n    rsp.num_of_remaining_sub_ops = nop - completed",
+     "    rsp = dimsemessages.CMoveRSPMessage()\n    rsp.message_id_being_responded_to = msg.message_id\n    rsp.sop_class_uid = ctx.supported_ts\n    rsp.num_of_remaining_sub_ops = nop - completed", ['C17']),
+    ('get-store-rsp-on-get-context', 'sopclass.py', '            asce.send(rsp, pc_id)',
+     '            asce.send(rsp, ctx.id)', ['C17', 'C19']),
+    ('store-failure-status-success', 'sopclass.py',
+     '        status = statuses.C_STORE_CANNON_UNDERSTAND', '        status = statuses.SUCCESS',
+     ['C17']),
+    ('echo-status-ignored', 'sopclass.py',
+     "    rsp.sop_class_uid = msg.sop_class_uid\n    rsp.status = int(status)\n    asce.send(rsp, ctx.id)\n\n\n@sop_classes([])",
+     "    rsp.sop_class_uid = msg.sop_class_uid\n    rsp.status = 0\n    asce.send(rsp, ctx.id)\n\n\n@sop_classes([])", ['C17']),
+    ('n-action-rsp-instance', 'sopclass.py', '        rsp.affected_sop_instance_uid = instance_uid\n        ds = dsutils.decode',
+     '        rsp.affected_sop_instance_uid = ctx.sop_class\n        ds = dsutils.decode', ['C17']),
+    ('dispatch-n-action-as-event', 'sopclass.py', "        0x0130: 'n_action',", "        0x0130: 'n_event_report',", ['C17']),
 ]
 
 
